@@ -22,7 +22,7 @@ func (e *Engine) Probe(realm string) (elapsed time.Duration, err error) {
 	quit := make(chan struct{})
 	var pumps sync.WaitGroup
 	for _, s := range e.Sess {
-		if ll, ok := s.lk.(*localLink); ok && !s.Stalled && !s.Dropped {
+		if ll, ok := s.lk.(*localLink); ok && !ll.hasRewriter && !s.Stalled && !s.Dropped {
 			pumps.Add(1)
 			go ll.pump(quit, &pumps)
 		}
